@@ -15,7 +15,7 @@ if ! go build ./... 2>"$V/build.log"; then echo "[$NAME] does not build: $(head 
 if go test -vet=off -count=1 ./... >"$V/test.log" 2>&1; then T="suite passes"; else T="SUITE FAILS"; fi
 fired=""
 for P in ${PROPS//,/ }; do
-  out=$(/verif/bin/yaccverif -prop "$P" -repo "$D" -verif "$V" 2>&1)
+  out=$(${YACCVERIF_BIN:-/verif/bin/yaccverif} -prop "$P" -repo "$D" -verif "$V" 2>&1)
   n=$(echo "$out" | grep -c '^VIOLATION')
   if [ "$n" != 0 ]; then fired="$fired $P($n)"; echo "$out" | grep -A2 '^FAIL' | cut -c1-300 | head -9; fi
 done
